@@ -199,7 +199,7 @@ def run(R):
     cnt = 700 if R.thorough else 130
     for t in range(cnt):
         m = R.rng.choice([2, 3, 3, 4, 5, 6, 8])
-        n = R.rng.choice([1, 2, 3, 4, 5, 8, 12, 20, 40])
+        n = R.rng.choice([1, 2, 3, 4, 5, 8, 12, 20, 40, 65, 97, 130])
         P = V.structured_profile(R.rng, n, m) if R.rng.random() < 0.4 else V.rand_profile(R.rng, n, m)
         vperm = list(range(n)); R.rng.shuffle(vperm)
         sig = list(range(m)); R.rng.shuffle(sig)
